@@ -10,7 +10,7 @@
     Judge/JF.v against Spec/SqlLexemes.v, and the transcription is tied to the
     code by exact correspondence of every compiled query file. *)
 From Coq Require Import Sorting.Permutation.
-From Verif Require Import Model.Compile Spec.SqlLexemes Judge.JQ Judge.J02 Judge.JF Proofs.SourceFacts.
+From Verif Require Import Model.Compile Spec.SqlLexemes Judge.JQ Judge.J02 Judge.JF Proofs.SourceFacts Proofs.CompileFacts3.
 Open Scope string_scope.
 Open Scope list_scope.
 
@@ -33,6 +33,41 @@ Theorem C04_one_edit : forall p o n t,
   apply_edit (p +++ o +++ t) (mkEdit (zlen p) o n) = Ok (p +++ n +++ t).
 Proof. exact apply_edit_segment. Qed.
 Print Assumptions C04_one_edit.
+
+(** On the composed model: the embedded SQL of an accepted query is
+    StripComments of Mutate of the statement's own text (Pluck), the edits being
+    those of the parameter rewrite followed by those of star expansion ... *)
+Theorem C04_compiled_source_partial : forall e raw src positional q,
+  parse_query e raw src positional = Ok (Some q) ->
+  exists raw_sql edits expanded,
+    pluck src (int_of "StmtLocation" raw) (int_of "StmtLen" raw) = Ok raw_sql /\
+    mutate raw_sql edits = Ok expanded /\
+    strip_comments expanded = Ok (q_sql q, q_comments q) /\
+    exists refs0 qc ex,
+      find_parameters (kid "Stmt" (fst (fst (named_parameters (env_engine e) raw)))) = Ok refs0 /\
+      expand (fuel_of raw) e qc (fst (fst (named_parameters (env_engine e) raw))) = Ok ex /\
+      edits = (if positional
+               then map (fun r => mkEdit (loc_of (pr_ref r) - int_of "StmtLocation" (fst (fst (named_parameters (env_engine e) raw))))
+                                         ("$" +++ z_to_string (ref_number r)) "?") refs0
+               else snd (named_parameters (env_engine e) raw)) ++ ex.
+Proof. exact parse_query_sql. Qed.
+Print Assumptions C04_compiled_source_partial.
+
+(** ... hence, whenever those edits sit on disjoint pieces of the text and each
+    Old text is what stands at its Location, the embedded SQL is StripComments
+    of the statement with exactly those pieces exchanged, every other byte
+    unchanged. *)
+Theorem C04_compiled_partial : forall e raw src positional q,
+  parse_query e raw src positional = Ok (Some q) ->
+  exists raw_sql edits expanded,
+    pluck src (int_of "StmtLocation" raw) (int_of "StmtLen" raw) = Ok raw_sql /\
+    mutate raw_sql edits = Ok expanded /\
+    forall segs tail,
+      raw_sql = text_of segs tail -> segs <> [] -> Forall seg_ok segs ->
+      Permutation edits (edits_of 0 segs) ->
+      strip_comments (result_of segs tail) = Ok (q_sql q, q_comments q).
+Proof. exact compiled_sql_is_edited_source. Qed.
+Print Assumptions C04_compiled_partial.
 
 (** Non-vacuity and the known class: two rewrites in one statement, given in the
     "wrong" order; and a named parameter spelled with inner spaces garbles the text. *)
